@@ -55,6 +55,22 @@ TEMPLATES3 = {
 }
 
 
+# two overlapping operations followed by a third one that starts after both have finished
+TEMPLATES_SEQ = {
+    "put/put-other-uid/then-put-first-uid": [{"k": "put", "name": "c.ics", "body": body("ux", "c")}, {"k": "put", "name": "d.ics", "body": body("ud", "d")}, {"k": "put", "name": "e.ics", "body": body("ux", "e")}],
+    "cond-put/put-other/then-stale-cond-put": [{"k": "put", "name": "a.ics", "body": body("ua", "a v2"), "cond": True}, {"k": "put", "name": "c.ics", "body": body("uc", "c")}, {"k": "put", "name": "a.ics", "body": body("ua", "a v3"), "cond": True}],
+    "delete/put-other/then-put-freed-uid": [{"k": "delete", "name": "a.ics"}, {"k": "put", "name": "c.ics", "body": body("uc", "c")}, {"k": "put", "name": "e.ics", "body": body("ua", "e takes ua")}],
+    "put-new/delete-other/then-delete-new": [{"k": "put", "name": "c.ics", "body": body("uc", "c")}, {"k": "delete", "name": "b.ics"}, {"k": "delete", "name": "c.ics"}],
+}
+
+
+def template_ops(tname):
+    for d in (TEMPLATES, TEMPLATES3, TEMPLATES_SEQ):
+        if tname in d:
+            return d[tname]
+    raise KeyError(tname)
+
+
 def uid_of(raw):
     return icalref.calendar_uid(raw)
 
@@ -86,12 +102,16 @@ def serial(ops, order, initial):
     return outs, state
 
 
-def stale_explanations(ops, initial, idxs, backend):
+def stale_explanations(ops, initial, idxs, backend, must_see=None):
     """Known finding K6: each operation evaluates its checks (and, on bare stores, builds its tree)
     on a snapshot taken before it entered the critical section.  Yields (outcomes, final) pairs."""
     for order in itertools.permutations(idxs):
         # snapshot choice for op at position p: state after the first s commits, s <= p
         for snaps in itertools.product(*[range(p + 1) for p in range(len(order))]):
+            # an operation can only have a stale view of operations it overlapped with: everything
+            # that had finished before it started must be in its snapshot
+            if must_see and any(not ((must_see.get(i, set()) & set(idxs)) <= set(order[: snaps[p]])) for p, i in enumerate(order)):
+                continue
             for mode in (["merge", "clobber"] if backend == "bare" else ["merge"]):
                 committed = [dict(initial)]
                 outs = {}
@@ -203,7 +223,8 @@ def judge(backend, ops, r):
         so, sf = serial(ops, order, PRIOR)
         if all(so[k] == outcomes[k] for k in active) and same_state(sf, final):
             return "ok", None
-    for so, sf in stale_explanations(ops, PRIOR, active, backend):
+    must_see = r["sched"].finished_before_start() if r.get("sched") is not None else None
+    for so, sf in stale_explanations(ops, PRIOR, active, backend, must_see):
         if all(so[k] == outcomes[k] for k in active) and same_state(sf, final):
             return "K6", f"outcomes {outcomes}, final {sorted(final)}"
     names = {n: (final[n][-60:-30] if n in final else None) for n in sorted(set(final) | set(PRIOR))}
@@ -238,12 +259,13 @@ def enumerate_pair(backend, sharing, tname, ops, step, fine, bound2=False):
         n = len(ops)
         counts = [count_points(backend, sharing, ops, prior, etags, i, fine) for i in range(n)]
         results = []
-        for first in range(n):
-            others = [k for k in range(n) if k != first]
+        sequel = tname in TEMPLATES_SEQ
+        for first in range(2 if sequel else n):
+            others = [k for k in range(n) if k != first and not (sequel and k == 2)]
             nf = counts[first] or 0
             for i in range(0, nf + 1, step):
                 if not bound2:
-                    segs = [(first, i)] + [(o, 10**9) for o in others] + [(first, 10**9)]
+                    segs = [(first, i)] + [(o, 10**9) for o in others] + [(first, 10**9)] + ([(2, 10**9)] if sequel else [])
                     results.append(({"first": first, "at": [i]}, segs))
                 else:
                     no = counts[others[0]] or 0
@@ -262,7 +284,7 @@ def unit(shard, units, step):
     for ui, (backend, sharing, tname, kind) in enumerate(units):
         if ui % runner.NSHARDS != shard:
             continue
-        ops = (TEMPLATES3 if tname in TEMPLATES3 else TEMPLATES)[tname]
+        ops = template_ops(tname)
         fine = kind != "bound2"
         try:
             prior, etags, scheds, scratch = enumerate_pair(backend, sharing, tname, ops, step, fine, bound2=(kind == "bound2"))
@@ -303,7 +325,7 @@ def random_shard(shard, seed, examples):
     from hypothesis import seed as hseed
 
     out = {"evaluations": 0, "nontrivial": set(), "violations": {}, "errors": [], "known": collections.Counter(), "stats": collections.Counter(), "samples": []}
-    cases = st.tuples(st.sampled_from(["tree", "bare"]), st.sampled_from(["threads", "processes"]), st.sampled_from(sorted(TEMPLATES) + sorted(TEMPLATES3)), st.lists(st.integers(0, 4), min_size=5, max_size=400), st.integers(0, 2))
+    cases = st.tuples(st.sampled_from(["tree", "bare"]), st.sampled_from(["threads", "processes"]), st.sampled_from(sorted(TEMPLATES) + sorted(TEMPLATES3) + sorted(TEMPLATES_SEQ)), st.lists(st.integers(0, 4), min_size=5, max_size=400), st.integers(0, 2))
     scratch = tempfile.mkdtemp(prefix="xv05r-", dir=env.scratch_root())
     priors = {}
     for b in ("tree", "bare"):
@@ -315,7 +337,7 @@ def random_shard(shard, seed, examples):
     @given(cases)
     def prop(case):
         backend, sharing, tname, choices, start = case
-        ops = (TEMPLATES3 if tname in TEMPLATES3 else TEMPLATES)[tname]
+        ops = template_ops(tname)
         prior, etags = priors[backend]
         r = run_schedule(backend, sharing, ops, sched.ListPolicy(choices, len(ops), start), prior, etags, fine=True)
         if "harness_error" in r:
@@ -353,7 +375,7 @@ def main(tier, seed):
     units = []
     for backend in ("tree", "bare"):
         for sharing in ("threads", "processes"):
-            for tname in sorted(TEMPLATES):
+            for tname in sorted(TEMPLATES) + sorted(TEMPLATES_SEQ):
                 units.append((backend, sharing, tname, "bound1"))
             if tier == "thorough":
                 for tname in sorted(TEMPLATES):
@@ -391,7 +413,7 @@ def main(tier, seed):
 
 
 def replay(obj):
-    ops = (TEMPLATES3 if obj["template"] in TEMPLATES3 else TEMPLATES)[obj["template"]]
+    ops = template_ops(obj["template"])
     scratch = tempfile.mkdtemp(prefix="xv05x-", dir=env.scratch_root())
     try:
         prior = os.path.join(scratch, "prior")
